@@ -212,8 +212,33 @@ class History:
         """the steps that produce a reply token"""
         return [st for st in self.steps if st[0] != "M"]
 
+    def final_repo(self):
+        """the sources as they are after the last M step: key -> Mod"""
+        r = {}
+        for (k, a) in self.steps:
+            if k == "M":
+                r[a.key()] = a
+        return r
+
+    def write_files(self, d):
+        """the repository as a search directory (for ly_ctx_new_ylmem)"""
+        import os
+        os.makedirs(d, exist_ok=True)
+        for f in os.listdir(d):
+            os.unlink(os.path.join(d, f))
+        for m in self.final_repo().values():
+            open(os.path.join(d, "%s%s.yang" % (m.name, ("@" + m.rev) if m.rev else "")), "w").write(m.text())
+            for sub in m.subs:
+                open(os.path.join(d, "%s.yang" % sub.name), "w").write(m.sub_text(sub))
+        self.wdir = d
+
+    def yl_line(self, i):
+        return "%s ctx ylhistory %s" % (i, hexs(self.spec()))
+
     def spec(self):
         o = ["F %d" % self.flags, "T %d" % (1 if self.touch else 0)]
+        if getattr(self, "wdir", None):
+            o.append("W %s" % self.wdir)
         for (k, a) in self.steps:
             if k == "M":
                 o.append("M %s %s %s %s" % (a.name, a.rev or "-", hexs(a.text()), a.desc()))
@@ -570,5 +595,41 @@ def gen_history(rng, mods=None):
         h.compile()
     for _ in range(rng.randint(0, 2)):
         ok_step(False)
+    h.meta = {"kinds": kinds}
+    return h
+
+
+def gen_yl_history(rng, mods=None, with_alt=True):
+    """histories of successful (and a few refused) calls over unchanged sources: what a yang-library description is about"""
+    mods = mods or gen_set(rng)
+    h = History(EXPLICIT if rng.random() < 0.2 else 0)
+    for m in mods:
+        h.add(m)
+    alt = None
+    if with_alt and rng.random() < 0.3:
+        o = rng.choice(mods)
+        alt = copy.deepcopy(o)
+        alt.rev = rng.choice(["2018-08-08", "2021-03-03"]) if o.rev else "2021-03-03"
+        if rng.random() < 0.5:
+            alt.feats = alt.feats + [Feat("fx")]
+        for sub in alt.subs: sub.name += "x"
+        h.add(alt)
+    pool = mods + ([alt] if alt else [])
+    kinds = []
+    for _ in range(rng.randint(1, 5)):
+        r = rng.random()
+        m = rng.choice(pool)
+        if r < 0.45:
+            h.parse(m, gen_featarg(rng, m)); kinds.append("parse")
+        elif r < 0.65:
+            h.load(m.name, m.rev if rng.random() < 0.5 else None, gen_featarg(rng, m)); kinds.append("load")
+        elif r < 0.9:
+            h.impl(m.name, m.rev, gen_featarg(rng, m)); kinds.append("impl")
+        elif r < 0.95:
+            h.compile(); kinds.append("compile")
+        else:
+            (h.setopt if rng.random() < 0.5 else h.unsetopt)(EXPLICIT); kinds.append("opt-explicit")
+    if h.flags & EXPLICIT or "opt-explicit" in kinds:
+        h.compile()
     h.meta = {"kinds": kinds}
     return h
